@@ -53,6 +53,97 @@ class CaseTimeout(Exception):
     pass
 
 
+# ---------------------------------------------------------------- which anchored code the run executed
+#
+# sys.monitoring LINE events with DISABLE after the first hit: every line of rdflib fires at most once per
+# process, so the cost is negligible.  Started in the parent before the pool is forked (children inherit the
+# tool, the callback and the already-disabled locations); each worker hands its new lines back with the case
+# result.  The evidence then says, per anchored file of the property, how many functions and lines of the
+# real code the correspondence run actually entered, and names the functions it never entered.
+
+_COV_NEW: list = []
+_COV_ON = False
+_COV_PREFIX = os.path.join(os.path.realpath(REPO), "rdflib") + os.sep
+
+
+def cov_start():
+    global _COV_ON
+    mon = getattr(sys, "monitoring", None)
+    if _COV_ON or mon is None or os.environ.get("VERIF_NO_COVERAGE"):
+        return
+    try:
+        mon.use_tool_id(mon.COVERAGE_ID, "verif")
+    except ValueError:
+        return
+
+    def on_line(code, line):
+        fn = code.co_filename
+        if fn.startswith(_COV_PREFIX):
+            _COV_NEW.append((fn[len(_COV_PREFIX):], line))
+        elif fn.startswith("/") and os.sep + "rdflib" + os.sep in fn:
+            rp = os.path.realpath(fn)
+            if rp.startswith(_COV_PREFIX):
+                _COV_NEW.append((rp[len(_COV_PREFIX):], line))
+        return mon.DISABLE
+
+    mon.register_callback(mon.COVERAGE_ID, mon.events.LINE, on_line)
+    mon.set_events(mon.COVERAGE_ID, mon.events.LINE)
+    _COV_ON = True
+
+
+def cov_drain():
+    out = list(_COV_NEW)
+    del _COV_NEW[:]
+    return out
+
+
+def anchored_files(prop: str) -> list[str]:
+    try:
+        for line in open(os.path.join(VERIF, "properties.jsonl"), encoding="utf-8"):
+            e = json.loads(line)
+            if e.get("id") == prop:
+                return [f for f in e.get("anchors", {}).get("files", []) if f.startswith("rdflib/") and f.endswith(".py")]
+    except Exception:
+        pass
+    return []
+
+
+def cov_report(prop: str, hit: set) -> dict:
+    """Per anchored file: functions / lines of the real code, and how many this run executed."""
+    rep, tot = {}, {"functions": 0, "functions_entered": 0, "lines": 0, "lines_executed": 0}
+    by_file: dict = {}
+    for f, l in hit:
+        by_file.setdefault(f, set()).add(l)
+    for rel in anchored_files(prop):
+        path = os.path.join(REPO, rel)
+        try:
+            top = compile(open(path, encoding="utf-8").read(), path, "exec")
+        except Exception:
+            continue
+        got = by_file.get(rel[len("rdflib/"):], set())
+        funcs, stack = [], [top]
+        while stack:
+            co = stack.pop()
+            for k in co.co_consts:
+                if hasattr(k, "co_code"):
+                    stack.append(k)
+            if co.co_name.startswith("<") or "__qualname__" in co.co_names:   # comprehensions, lambdas, class bodies
+                continue
+            lines = {l for (_a, _b, l) in co.co_lines() if l and l != co.co_firstlineno}
+            if lines:
+                funcs.append((getattr(co, "co_qualname", co.co_name), lines))
+        n_l = sum(len(ls) for _q, ls in funcs)
+        n_x = sum(len(ls & got) for _q, ls in funcs)
+        missed = sorted(q for q, ls in funcs if not (ls & got))
+        rep[rel] = {"functions": len(funcs), "functions_entered": len(funcs) - len(missed),
+                    "lines": n_l, "lines_executed": n_x, "not_entered": missed[:80]}
+        tot["functions"] += len(funcs); tot["functions_entered"] += len(funcs) - len(missed)
+        tot["lines"] += n_l; tot["lines_executed"] += n_x
+    return {"total": tot, "files": rep,
+            "note": "function bodies of the property's anchored files executed by the implementation side of this run "
+                    "(sys.monitoring LINE events; module-level statements are not counted)"}
+
+
 def case_rng(seed: int, prop: str, i: int, salt: str = "") -> random.Random:
     return random.Random(f"{seed}:{prop}:{i}:{salt}")
 
@@ -210,6 +301,8 @@ def _worker(case):
         r.setdefault("nontrivial", True)
         r.setdefault("key", json.dumps(case, sort_keys=True, default=str))
         r.setdefault("stats", {})
+        if _COV_ON:
+            r["_cov"] = cov_drain()
         return r
     except CaseTimeout:
         _disarm()
@@ -355,6 +448,7 @@ def run_property(mod, tier="quick", seed=0, replay=None):
 
     if tier == "thorough":
         os.environ.setdefault("VERIF_TIMEOUT_SCALE", "3")
+    cov_start()
     gate = lean_gate(mod, log)
     if tier == "thorough" and gate["ok"] and not os.environ.get("VERIF_NO_LEANCHECKER"):
         probs = leanchecker(mod, log)
@@ -398,6 +492,9 @@ def run_property(mod, tier="quick", seed=0, replay=None):
 
     stats, keys, n_diverge = {}, set(), 0
     divergent, failing = [], []
+    cov_hit = set()
+    for r in impl:
+        cov_hit.update(map(tuple, r.pop("_cov", ())))
     for i, (c, r) in enumerate(zip(cases, impl)):
         for k, v in r.get("stats", {}).items():
             stats[k] = stats.get(k, 0) + v
@@ -561,6 +658,7 @@ def run_property(mod, tier="quick", seed=0, replay=None):
             "traces_validated_against_impl": len(cases) - n_diverge - len(harness_errors),
             "model_impl_divergences": n_diverge,
             "generator_distribution": stats,
+            "anchored_code_exercised": cov_report(prop, cov_hit | set(map(tuple, cov_drain()))) if _COV_ON else None,
             "known_findings_reported": sorted(reported_known),
             "harness_errors": len(harness_errors),
             "notes": notes,
